@@ -345,8 +345,8 @@ PROPS["C17"] = dict(
     verus=["c17_generic", "c16_store", "c11_cosmetic_parse"],
     labels=["C17.", "C16.rule.hidden_generic_rule.", "C16.add_filter."],
     kani=[],
-    witness=["c17_keys.rs", "c16_generic_parse.rs", "c16_model.rs"],
-    trusted=["key_from_selector (three regexes + CSS unescaping): key_spec is uninterpreted; assumed only that a key starts with the selector's own first character. Its behaviour on concrete selectors is covered by witness inputs replayed on the real crate (vf/witness/c17_keys.rs), not by a contract",
+    witness=["c17_keys.rs", "c17_escapes.rs", "c16_generic_parse.rs", "c16_model.rs"],
+    trusted=["key_from_selector (three regexes + CSS unescaping): key_spec is uninterpreted; assumed only that a key starts with the selector's own first character. Its behaviour on concrete selectors is covered by witness inputs replayed on the real crate (vf/witness/c17_keys.rs) and by a reference CSS unescaper run over a grid of escaped identifiers (vf/witness/c17_escapes.rs), not by a contract",
              "CosmeticFilter::plain_css_selector (uninterpreted)",
              "R7 lift: `if let Some(b) = map.get_mut(&k) { b.push(v) } else { map.insert(k, vec![v]) }` = append under a key (HashMap::get_mut has no vstd specification)",
              "R5/R6 lifts in hidden_class_id_selectors: into_iter() of the caller's collections materialised, <T as AsRef<str>>::as_ref uninterpreted, HashSet<String>::contains(&str) / HashMap<String,_>::get(&str) = lookup by text, extend(iter().filter(!excepted).map(to_owned)) = append of the unexcepted elements in order",
